@@ -136,6 +136,13 @@ func ZZ_ES() {
 			if zzrt.NondetBool("withSender") {
 				snd = senderA
 			}
+			if zzrt.NondetBool("nilMessage") {
+				// any message value, nil included, must surface as a dead letter and leave the event stream intact
+				evN--
+				guard(func() { e.SendWithSender(ghost, nil, snd) })
+				zzrt.Reach("nil-message")
+				break
+			}
 			sends = append(sends, sendRec{evN, 0, snd, mark()})
 			guard(func() { e.SendWithSender(ghost, zzUser{Seq: evN}, snd) })
 		case 4: // send to a foreign address, no remote configured
